@@ -503,5 +503,94 @@ def main():
     print("ok")
 
 
+
+
+# ---------------------------------------------------------------- call sites into the compiled modules (C20)
+CALLSITE_FILES = ["src/dtaidistance/dtw.py", "src/dtaidistance/ed.py", "src/dtaidistance/dtw_barycenter.py",
+                  "src/dtaidistance/dtw_ndim.py", "src/dtaidistance/clustering/kmeans.py",
+                  "src/dtaidistance/subsequence/subsequencealignment.py",
+                  "src/dtaidistance/subsequence/subsequencesearch.py"]
+C_MODULES = ("dtw_cc", "ed_cc", "dtw_cc_omp")
+# routines whose first positional arguments are series handed to C as raw pointers
+SERIES_ARGS = {"distance": 2, "distance_ndim": 2, "warping_paths": (1, 3), "warping_paths_ndim": (1, 3),
+               "warping_paths_compact": (1, 3), "warping_paths_compact_ndim": (1, 3), "warping_path": 2,
+               "warping_path_ndim": 2, "warping_path_prob": 2, "lb_keogh": 2, "ub_euclidean": 2,
+               "warping_paths_affinity": (1, 3), "warping_paths_affinity_ndim": (1, 3),
+               "warping_paths_compact_affinity": (1, 3), "warping_paths_compact_ndim_affinity": (1, 3)}
+GUARD_FUNCS = ("verify_np_array",)
+
+
+def callsites(repo=REPO):
+    rows = []
+    for rel in CALLSITE_FILES:
+        tree = ast.parse(open(os.path.join(repo, rel)).read())
+        for fn in [n for n in ast.walk(tree) if isinstance(n, ast.FunctionDef)]:
+            guarded = {}      # name -> line of the guard assignment
+            for node in ast.walk(fn):
+                if isinstance(node, ast.Assign) and isinstance(node.value, ast.Call):
+                    f = node.value.func
+                    fname = f.attr if isinstance(f, ast.Attribute) else (f.id if isinstance(f, ast.Name) else "")
+                    if fname in GUARD_FUNCS:
+                        for t in node.targets:
+                            if isinstance(t, ast.Name):
+                                guarded.setdefault(t.id, node.lineno)
+                            elif isinstance(t, ast.Tuple):
+                                for el in t.elts:
+                                    if isinstance(el, ast.Name):
+                                        guarded.setdefault(el.id, node.lineno)
+                    if fname == "warping_path_args_to_c":       # returns verified copies
+                        for t in node.targets:
+                            if isinstance(t, ast.Tuple):
+                                for el in t.elts[:2]:
+                                    if isinstance(el, ast.Name):
+                                        guarded.setdefault(el.id, node.lineno)
+            for node in ast.walk(fn):
+                if isinstance(node, ast.Call) and isinstance(node.func, ast.Attribute) and \
+                        isinstance(node.func.value, ast.Name) and node.func.value.id in C_MODULES and \
+                        node.func.attr in SERIES_ARGS:
+                    spec = SERIES_ARGS[node.func.attr]
+                    lo, hi = (0, spec) if isinstance(spec, int) else spec
+                    for a in node.args[lo:hi]:
+                        txt = ast.unparse(a)
+                        ok = isinstance(a, ast.Name) and a.id in guarded and guarded[a.id] < node.lineno
+                        if isinstance(a, ast.Call):
+                            af = a.func
+                            afn = af.attr if isinstance(af, ast.Attribute) else (af.id if isinstance(af, ast.Name) else "")
+                            ok = afn in GUARD_FUNCS
+                        rows.append((rel, fn.name, node.func.value.id + "." + node.func.attr, txt, ok))
+    return rows
+
+
+def write_callsites(outdir):
+    rows = callsites()
+    if not rows:
+        raise TranslateError("no call sites into the compiled modules found")
+    lines = ["(* GENERATED by tools/translate_py.py -- every call from the Python layer into a compiled routine that takes",
+             "   raw series pointers: (file, function, callee, argument expression, passed through verify_np_array first) *)",
+             "From Coq Require Import String List Bool.", "Import ListNotations.", "Open Scope string_scope.", "",
+             "Definition c_call_sites : list (string * string * string * string * bool) := ["]
+    lines.append(";\n".join('  ("%s", "%s", "%s", "%s", %s)' % (f, fn, callee, arg.replace('"', "'"), "true" if ok else "false")
+                            for f, fn, callee, arg, ok in rows))
+    lines.append("].")
+    text = "\n".join(lines) + "\n"
+    p = os.path.join(outdir, "Gen_calls.v")
+    old = open(p).read() if os.path.exists(p) else None
+    if old != text:
+        open(p, "w").write(text)
+
+
+_old_main = main
+
+
+def main():  # noqa: F811
+    outdir = sys.argv[1] if len(sys.argv) > 1 else "/verif/coq/gen"
+    try:
+        write_callsites(outdir)
+    except (TranslateError, OSError, SyntaxError) as exc:
+        print("TRANSLATE-ERROR: call sites: %s" % exc)
+        sys.exit(2)
+    _old_main()
+
+
 if __name__ == "__main__":
     main()
